@@ -796,6 +796,8 @@ pub struct Exec {
     /// when true, errors returned by API calls are recorded as problems (fault-free runs)
     pub errors_are_violations: bool,
     pub pending_merges: Vec<tantivy::FutureResult<Option<tantivy::SegmentMeta>>>,
+    /// extra sink for client events (used by the syscall twin to emit marker syscalls)
+    pub marker: Option<std::sync::Arc<dyn Fn(&str, &str) + Send + Sync>>,
 }
 
 impl Exec {
@@ -837,6 +839,7 @@ impl Exec {
             problems: vec![],
             errors_are_violations: true,
             pending_merges: vec![],
+            marker: None,
         };
         ex.open_writer()?;
         Ok(ex)
@@ -868,6 +871,9 @@ impl Exec {
     fn ev(&self, what: &str, note: &str) {
         if let Some(m) = &self.mon {
             m.client_event(what, note);
+        }
+        if let Some(f) = &self.marker {
+            f(what, note);
         }
     }
 
